@@ -371,9 +371,9 @@ def clamp_sizes(name, args):
     out = []
     for i, a in enumerate(args):
         spec = model[i] if i < len(model) else (model[-1] if model and model[-1].get('lastArgArray') else {})
-        if is_number(a) and math.isfinite(a) and abs(a) > SIZE_CAP and spec.get('type') == 'number' and \
+        if is_number(a) and (isinstance(a, int) or math.isfinite(a)) and abs(a) > SIZE_CAP and spec.get('type') == 'number' and \
                 (spec.get('integer') or spec.get('name') in ('digits', 'count', 'size', 'base')):
-            a = type(a)(math.copysign(SIZE_CAP, a))
+            a = type(a)(SIZE_CAP if a > 0 else -SIZE_CAP)
         out.append(a)
     return out
 
